@@ -106,7 +106,7 @@ pub fn run(args: &[String]) {
         vec![
             ("A", p(&[0, 1, 2, 3, 4, 5])),
             ("B", p(&[0, 1, 2, 3, 4, 5])),
-            ("C", p(&[0, 2, 1])),
+            ("C", p(&[0, 2, 3])),
             ("B2", p(&[0, 2])),
             ("G", p(&[0, 3])),
             ("K", p(&[0])),
